@@ -73,7 +73,15 @@ def rand_case(rng, n=None, kinds=None):
             genes.append(dict(kind="default", name=name, weight=w, params=({"size": rng.choice([1, 2, 3])} if name == "linkage_list" else {})))
     nr = rng.choice([(0.0, 1.0), (0.0, 1.0), (-1.0, 2.5), (rng.randint(-8, 8) / 4, None), (None, rng.randint(-8, 8) / 4), (None, None), (0.5, 0.5)])
     nd = rng.choice([1.0, 1.0, 2.5, None])
-    return dict(structs=structs, genes=genes, norm_range=list(nr), norm_dist=nd)
+    case = dict(structs=structs, genes=genes, norm_range=list(nr), norm_dist=nd)
+    if rng.random() < 0.4 and genes:
+        pre = []
+        for _ in range(rng.choice([1, 1, 2])):
+            idx = [i for i in range(len(genes)) if rng.random() < 0.8] or [0]
+            rng.shuffle(idx)
+            pre.append([[i, rng.choice([genes[i]["weight"], 1.0, rng.uniform(0.05, 7.0)])] for i in idx])
+        case["prehist"] = pre
+    return case
 
 
 def build(case, order=None):
@@ -108,7 +116,24 @@ def build(case, order=None):
             genes.append(Gene(g["name"], g["weight"], parser=parser, pair=True))
         else:
             genes.append(Gene(g["name"], g["weight"], dict(g["params"])))
-    return PhylogenCluster(coll, genes, norm_range=tuple(case["norm_range"]), norm_dist=case["norm_dist"])
+    pre = case.get("prehist") or []
+    if not pre:
+        return PhylogenCluster(coll, genes, norm_range=tuple(case["norm_range"]), norm_dist=case["norm_dist"])
+    # a history on ONE object: earlier gene sets (sub-lists of the same genes in other orders, with other weights), each evaluated, then the final set
+    p = None
+    for step in pre:
+        gs = []
+        for gi, w in step:
+            g0 = genes[gi]
+            gs.append(Gene(g0.name, w, dict(g0.params), parser=(None if case["genes"][gi]["kind"] == "default" else g0._parser), pair=g0.is_pair)
+                      if case["genes"][gi]["kind"] != "default" else Gene(g0.name, w, dict(g0.params)))
+        if p is None:
+            p = PhylogenCluster(coll, gs, norm_range=tuple(case["norm_range"]), norm_dist=case["norm_dist"])
+        else:
+            p.set_genes(gs)
+        p.get_distmat()
+    p.set_genes(genes)
+    return p
 
 
 def partition_of(labels):
@@ -259,12 +284,7 @@ def check_case(case, t_u=(0.37, 0.81), km_k=None, perm=None, collect=None):
                 collect.setdefault("labels", []).append(([int(x) for x in labels], [[int(i) for i in s] for s in slices]))
         except Exception as e:
             probs.append("get_kmeans_clusters(%d) raised %s: %s" % (k, type(e).__name__, str(e)[:120]))
-    else:
-        try:
-            build(case).get_kmeans_clusters(2)
-            probs.append("k-means ran although pair genes are present")
-        except RuntimeError:
-            pass
+    # (with pair genes k-means is documented to refuse; the property does not demand it, so it is not judged)
     # permutation
     if perm is not None:
         p2 = build(case, order=perm)
@@ -293,7 +313,7 @@ def run(ctx):
     ctx.rule = ("collections of 2..15 three-atom structures (random cells incl. equal axes, energies incl. ties) x gene sets from {custom vector genes (1-5 columns, "
                 "flat or 2-d, constant columns), constant genes, custom pair genes (Euclidean distances of hidden points, 1-2 layers), all-zero pair genes, "
                 "latt_abc_len, latt_abc_ang, latt_cart, energy, linkage_list} x positive weights x norm_range in {(0,1), (-1,2.5), (lo,None), (None,hi), "
-                "(None,None), (0.5,0.5)} x norm_dist in {1, 2.5, None} x thresholds between consecutive pair distances x 4 linkage methods x k-means k x a "
+                "(None,None), (0.5,0.5)} x norm_dist in {1, 2.5, None} x call histories (earlier set_genes with sub-lists / other weights on the same object) x thresholds between consecutive pair distances x 4 linkage methods x k-means k x a "
                 "random permutation")
     ctx.trusted += ["hand models coq/model/PhyloBody.v (normalisation, scaling, squared distance) and Clusters.v (groups from labels; threshold-graph components as "
                     "the REFERENCE for single linkage): scipy's linkage / fcluster / kmeans / vq are not modelled, their outputs are judged by the correspondence "
@@ -336,7 +356,7 @@ def run(ctx):
             import traceback
             pr = ["raised %s: %s @ %s" % (type(e).__name__, str(e)[:200], traceback.format_exc().strip().splitlines()[-3][:160])]
         kinds = tuple(sorted(g["kind"] if g["kind"] != "default" else g["name"] for g in case["genes"]))
-        ctx.seen(("case", n, kinds, tuple(x is None for x in case["norm_range"]), case["norm_dist"] is None, not pr))
+        ctx.seen(("case", n, kinds, len(case.get("prehist") or []), tuple(x is None for x in case["norm_range"]), case["norm_dist"] is None, not pr))
         if pr:
             ctx.fail_input("case", dict(case, t_u=list(tu), km_k=kk, perm=perm), pr[0], classify)
             continue
